@@ -143,6 +143,32 @@ Proof.
     + destruct (pull (t_stream tr)) as [[| |e] s']; reflexivity.
 Qed.
 
+(** * 5. Track.start / Track.update   (C05)
+   events: an already built stream (the normalisation dict -> PDict of the argument is not translated); interpolate = None;
+   `self.timeline._schedule_action(function=lambda: self.start(events, ...), quantize=, delay=)` appends
+   AStart (sched_time now q d) id events - the scheduled time of the source is tied to sched_time in Sched/SchedTimeSrc.v;
+   the output-device latency (seconds -> beats) is the model's `latency cfg`. *)
+Theorem src_track_start_is tr s : src_track_start tr s = track_start tr s.
+Proof. reflexivity. Qed.
+
+Theorem src_track_update_is cfg tl tr s q d count : src_track_update cfg tl tr s q d count = track_update cfg tl tr s q d count.
+Proof.
+  unfold src_track_update, track_update.
+  destruct q as [q|], d as [d|], count as [c|]; destruct (0 <? latency cfg);
+    match goal with |- context [?a =? 0] => destruct (a =? 0) end; cbn [andb];
+    try match goal with |- context [?a =? 0] => destruct (a =? 0) end; reflexivity.
+Qed.
+
+Theorem exec_update_src cfg tl t s q d count tr : find_track t (tracks tl) = Some tr ->
+  exec_op cfg tl (OUpdate t s q d count) = let '(tl1, tr1) := src_track_update cfg tl tr s q d count in (upd_track tl1 tr1, ROk).
+Proof. intros H. cbn [exec_op]. rewrite H, src_track_update_is. reflexivity. Qed.
+
+(* what the stored closure of a deferred update does when the timeline calls it: Track.start *)
+Lemma fire_start_src tl t id s : fire_action tl (AStart t id s)
+  = match find_track id (tracks tl) with Some tr => (upd_track tl (src_track_start tr s), []) | None => (tl, []) end.
+Proof. reflexivity. Qed.
+
+Print Assumptions src_track_update_is.
 Print Assumptions src_track_process_note_offs_is.
 Print Assumptions src_timeline_clear_is.
 Print Assumptions src_track_get_next_event_is.
